@@ -716,3 +716,112 @@ fn c14_conversions(rep: &mut Report) {
         }
     }
 }
+
+// ---------------------------------------------------------------- C13
+
+pub fn c13(tier: &str, seed: u64, ops: Option<&[String]>) -> Report {
+    use crate::sio::{ScriptReader, Term};
+    use mqtt_proto::{v3, v5, Error, Protocol};
+    let mut rep = Report::new("C13", "every generated valid v5 CONNECT into the v3 decoders and every v3.1/v3.1.1 CONNECT into the v5 decoders (blocking, async with reader position, poll with random chunking): UnexpectedProtocol naming the version found, no byte beyond name+level consumed by the async decoder, continuation with decode_with_protocol on the rest equals native decode; Protocol::new over 6 names x all 256 levels");
+    let i3 = po::inputs::<V3>(tier, seed, ops, 0, 0, false);
+    let i5 = po::inputs::<V5>(tier, seed.wrapping_add(1), ops, 0, 0, false);
+    let mut rng = Rng::new(seed ^ 0x1313);
+    let n = if ops.is_some() { 0 } else if tier == "thorough" { 20000 } else { 2000 };
+    let mut v3c: Vec<v3::Packet> = i3.packets.into_iter().filter(|p| matches!(p, v3::Packet::Connect(_))).collect();
+    let mut v5c: Vec<v5::Packet> = i5.packets.into_iter().filter(|p| matches!(p, v5::Packet::Connect(_))).collect();
+    for i in 0..n {
+        v3c.push(crate::pgen::gen_v3(&mut rng, 0, crate::pgen::Sizes { big: i % 90 == 0 }));
+        v5c.push(crate::pgen::gen_v5(&mut rng, 0, crate::pgen::Sizes { big: i % 90 == 0 }, [0u8, 1, 2, 3, 4][i % 5], i));
+    }
+    for p in &v5c {
+        rep.cases += 1;
+        let input = format!("enc v5 {}", crate::v5text::show(p));
+        let e = match p.encode() {
+            Ok(e) => e.as_ref().to_vec(),
+            Err(_) => continue,
+        };
+        let hl = mqtt_proto::header_len(e.len());
+        let expect = Error::UnexpectedProtocol(Protocol::V500);
+        if v3::Packet::decode(&e) != Err(expect.clone()) {
+            rep.fail("cross-blocking", format!("dec v3 {}", hex(&e)), format!("v3 blocking decoder on a v5 CONNECT gave {:?}", v3::Packet::decode(&e).map(|o| o.map(|q| crate::v3text::show(&q)))));
+        }
+        let mut rd = ScriptReader::new(e.clone(), vec![], Term::Eof);
+        let r = {
+            let mut fut = Box::pin(v3::Packet::decode_async(&mut rd));
+            crate::sio::drive(fut.as_mut()).0
+        };
+        if r != Err(expect.clone()) || rd.pos > hl + 7 {
+            rep.fail("cross-async", format!("deca v3 {} eof", hex(&e)), format!("async gave {:?} having consumed {} bytes (header {} + protocol 7)", r.map(|q| crate::v3text::show(&q)), rd.pos, hl));
+        }
+        let o = V3::poll(&e, crate::pktops::parse_sched(&crate::pgen::gen_sched(&mut rng, e.len())).unwrap(), Term::Eof);
+        if o.res.as_ref().err().map(|x| x.text.as_str()) != Some("UnexpectedProtocol(V500)") {
+            rep.fail("cross-poll", format!("poll v3 {} - eof", hex(&e)), format!("poll gave {:?}", o.res.map(|x| x.0)));
+        }
+        // continue natively on the rest
+        let mut rest: &[u8] = &e[hl + 7..];
+        let header = v5::Header::new_with(e[0], (e.len() - hl) as u32).unwrap();
+        match futures_lite::future::block_on(v5::Connect::decode_with_protocol(&mut rest, header, Protocol::V500)) {
+            Ok(c) if v5::Packet::Connect(c.clone()) == *p && rest.is_empty() => {}
+            other => rep.fail("cross-continue", input.clone(), format!("decode_with_protocol on the remainder gave {:?}", other.map(|c| crate::v5text::show(&v5::Packet::Connect(c))))),
+        }
+    }
+    for p in &v3c {
+        rep.cases += 1;
+        let input = format!("enc v3 {}", crate::v3text::show(p));
+        let e = match p.encode() {
+            Ok(e) => e.as_ref().to_vec(),
+            Err(_) => continue,
+        };
+        let proto = match p {
+            v3::Packet::Connect(c) => c.protocol,
+            _ => continue,
+        };
+        let hl = mqtt_proto::header_len(e.len());
+        let plen = 2 + (e[hl + 1] as usize) + 1;
+        let expect = v5::ErrorV5::Common(Error::UnexpectedProtocol(proto));
+        if v5::Packet::decode(&e) != Err(expect.clone()) {
+            rep.fail("cross-blocking", format!("dec v5 {}", hex(&e)), format!("v5 blocking decoder on a v3 CONNECT gave {:?}", v5::Packet::decode(&e).map(|o| o.map(|q| crate::v5text::show(&q)))));
+        }
+        let mut rd = ScriptReader::new(e.clone(), vec![], Term::Eof);
+        let r = {
+            let mut fut = Box::pin(v5::Packet::decode_async(&mut rd));
+            crate::sio::drive(fut.as_mut()).0
+        };
+        if r != Err(expect.clone()) || rd.pos > hl + plen {
+            rep.fail("cross-async", format!("deca v5 {} eof", hex(&e)), format!("async gave {:?} having consumed {} bytes (header {} + protocol {})", r.map(|q| crate::v5text::show(&q)), rd.pos, hl, plen));
+        }
+        let o = V5::poll(&e, crate::pktops::parse_sched(&crate::pgen::gen_sched(&mut rng, e.len())).unwrap(), Term::Eof);
+        let want = format!("UnexpectedProtocol({})", protocol(proto));
+        if o.res.as_ref().err().map(|x| x.text.clone()) != Some(want) {
+            rep.fail("cross-poll", format!("poll v5 {} - eof", hex(&e)), format!("poll gave {:?}", o.res.map(|x| x.0)));
+        }
+        let mut rest: &[u8] = &e[hl + plen..];
+        match futures_lite::future::block_on(v3::Connect::decode_with_protocol(&mut rest, proto)) {
+            Ok(c) if v3::Packet::Connect(c.clone()) == *p && rest.is_empty() => {}
+            other => rep.fail("cross-continue", input.clone(), format!("decode_with_protocol on the remainder gave {:?}", other.map(|c| crate::v3text::show(&v3::Packet::Connect(c))))),
+        }
+    }
+    if ops.is_none() {
+        for name in [&b"MQTT"[..], b"MQIsdp", b"MQTt", b"", b"MQTTT", b"MQ\xff", b"mqtt"] {
+            for level in 0..=255u8 {
+                rep.cases += 1;
+                let got = Protocol::new(name, level);
+                let want: Result<Protocol, Error> = match (name, level) {
+                    (b"MQIsdp", 3) => Ok(Protocol::V310),
+                    (b"MQTT", 4) => Ok(Protocol::V311),
+                    (b"MQTT", 5) => Ok(Protocol::V500),
+                    _ => match std::str::from_utf8(name) {
+                        Ok(s) => Err(Error::InvalidProtocol(s.to_string(), level)),
+                        Err(_) => Err(Error::InvalidString),
+                    },
+                };
+                if got != want {
+                    rep.fail("protocol-pair", format!("proto {}", hex(&[&(name.len() as u16).to_be_bytes()[..], name, &[level]].concat())), format!("Protocol::new gave {:?}, expected {:?}", got, want));
+                }
+            }
+        }
+    }
+    rep.distinct = rep.cases;
+    rep.sample("dec v3 <encoding of a v5 CONNECT> -> err UnexpectedProtocol(V500)".into());
+    rep
+}
